@@ -1,4 +1,6 @@
 """C05 — the client's output is always a legal MPD session (DESIGN.md §4/C05): A4 typestate."""
+from ..callgraph import norm
+from ..common import body_by_name, callee_names, family
 from ..loopan import analyse, fn_name, has_write, report_violations
 
 CONFIGS_QUICK = ["K1"]
@@ -24,10 +26,12 @@ def run(rep, progs, tier):
         "tokio's channel semantics, the bytes themselves (C02/C03).")
     rep.rule("C05.discipline", "idle only from Q; noidle only from I; request only from Q; receive only when something is outstanding")
     rep.rule("C05.no-cut-write", "no future that writes to the connection is ever dropped before completion (select!/timeout)")
+    rep.rule("C05.complete-write", "every send writes its bytes completely (write_all family), never a single-attempt write whose count is dropped")
     rep.rule("C05.invariant", "at every iteration boundary: loop_state Idling <=> idle outstanding, WaitingForCommandReply <=> request outstanding")
     rep.trusted = ["rustc MIR construction and callee resolution", "mpdfacts exporter", "tokio select!/timeout/mpsc/oneshot semantics as modelled",
                    "MPD idle rules (protocol reference)"]
     for cfg, prog in progs.items():
+        complete_write_rule(rep, prog, cfg)
         res = analyse(prog)
         if res is None or res["iteration"] is None:
             rep.fail("C05.anchor", cfg, "client/connection.rs", "the connection loop (async fn handed to tokio::spawn, awaiting an iteration fn in a cycle) was not found")
@@ -66,3 +70,36 @@ def run(rep, progs, tier):
         # the loop's first action from Q is idle: root's first event
         first = [e for (bid, bb), e in an.events.items() if bid == an.coroutine_of(res["root"]).id and e["kind"] == "send:idle"]
         rep.check(bool(first), "C05.discipline", cfg + "/idle on entry", fn_name(prog, res["root"]), "the loop does not start by issuing idle")
+
+
+COMPLETE = {"tokio::io::util::async_write_ext::AsyncWriteExt::write_all", "tokio::io::util::async_write_ext::AsyncWriteExt::write_all_buf",
+            "std::io::Write::write_all"}
+PARTIAL = {"write", "write_buf", "write_vectored", "poll_write", "try_write", "write_vectored_buf"}
+
+
+def complete_write_rule(rep, prog, cfg):
+    rule = "C05.complete-write"
+    n = 0
+    for flavour in ("AsyncConnection", "Connection"):
+        for op in ("send", "send_list"):
+            bs = body_by_name(prog, "mpd_protocol::connection::%s::%s" % (flavour, op))
+            if len(bs) != 1:
+                if flavour == "AsyncConnection" and cfg == "K3":
+                    continue
+                rep.fail(rule + ".anchor", "%s/%s::%s" % (cfg, flavour, op), "connection.rs", "public anchor not found")
+                continue
+            complete = []
+            partial = []
+            for fb in family(prog, bs[0]):
+                for bb, t in fb.calls():
+                    for nm in callee_names(t):
+                        if nm in COMPLETE:
+                            complete.append(nm)
+                        elif ("AsyncWriteExt::" in nm or nm.startswith("std::io::Write::") or "AsyncWrite::" in nm) and nm.rsplit("::", 1)[-1] in PARTIAL:
+                            partial.append(nm)
+            n += 1
+            rep.check(complete and not partial, rule, "%s/%s::%s" % (cfg, flavour, op), bs[0].loc(bs[0].span),
+                      "%s::%s hands its bytes to the transport with %s: a single write attempt may accept only part of the buffer and the rest is dropped — "
+                      "the server receives a truncated request line followed by whatever is written next" % (flavour, op, sorted(set(partial)) or "no write_all"),
+                      detail={"writes": sorted(set(complete))})
+    rep.floor(rule, cfg + "/send functions", n, 2)
